@@ -14,6 +14,7 @@ let plain = ref []
 let reason (c : n) : n list = try Hashtbl.find reason_tbl (int_of_n c) with Not_found -> bytes_of_string "?"
 let ct_text (_ : nat) : n list = []
 
+let plain_reader (data : n list) : reader = { r_data = data; r_sched = [] }
 (* ---- the scripted handler, mirroring harness/src/bin/c04.rs ---- *)
 let view_str (v : bview) : string = match v with
   | BV_Empty -> "E"
@@ -48,6 +49,13 @@ let scripted_path (path : string) (v : bview) : response hres =
     if over then text 413 "Uploaded data is too big."
     else if view_pending v then HGetBody (num m) else text 200 vs
   | None ->
+  (* a file body declared as 10 bytes holding k < 10, or missing: the response fails after its head went out *)
+  match strip_prefix "/fs" path with
+  | Some k -> let k = min (num_int k) 10 in
+    let r = resp_new (n_of_int 200) in
+    HNormal { r with r_body = BKnown (n_of_int 10, true, plain_reader (List.init k (fun i -> n_of_int (48 + i)))) }
+  | None ->
+  if path = "/fm" then (let r = resp_new (n_of_int 200) in HNormal { r with r_body = BKnown (n_of_int 10, false, plain_reader []) }) else
   if path = "/d" then HDrop
   else if path = "/p" then text 500 "Server error"      (* the panic is turned into this by HttpServerBuilder::spawn *)
   else text 404 vs
@@ -84,6 +92,7 @@ let max_gap (data : int list) : int =
   go data 0 0 0
 
 let oracle (script : int list) (impl_line : string) : string =
+  let faulty = ref false in
   let toks = split_ws impl_line in
   match toks with "panic" :: _ -> "oracle=fail@panic" | _ ->
   match field "log=[" toks, field "wire=" toks, field "files=" toks with
@@ -106,7 +115,9 @@ let oracle (script : int list) (impl_line : string) : string =
        let view_of_string s : bview option = (match parse_view s with
            | `E -> Some BV_Empty | `U -> Some BV_PendingUnknown | `K n -> Some (BV_PendingKnown (n_of_decimal n))
            | _ -> None) in
-       let answer path vstr : [`Normal of int * string | `Drop | `Get | `Unknown] =
+       let faulty_path path = (match strip_prefix "/fs" path with Some k -> num_int k < 10 | None -> path = "/fm") in
+       let answer path vstr : [`Normal of int * string | `Drop | `Get | `Unknown | `Faulty] =
+         if faulty_path path then `Faulty else
          (match view_of_string vstr with
           | Some v -> (match scripted_path path v with
               | HNormal r -> `Normal (int_of_n r.r_code, (match r.r_body with BKnown (_, _, src) -> string_of_bytes src.r_data | _ -> "?"))
@@ -143,6 +154,7 @@ let oracle (script : int list) (impl_line : string) : string =
                | `Get -> (List.rev acc, true, if rest = [] then None else Some "runs-after-already-got-body")
                | `Unknown -> (List.rev acc, true, Some "unknown-answer"))
             | [_; _], _ -> (List.rev acc, true, Some "second-run-without-get-body")
+            | [_], `Faulty -> faulty := true; (List.rev acc, true, if rest = [] then None else Some "runs-after-failed-response")
             | [_], `Normal (c, b) ->
               let pending = (match parse_view (List.hd vs) with `K _ | `U -> true | _ -> false) in
               if c / 100 = 4 || c / 100 = 5 then (List.rev ((c, b) :: acc), true, if rest = [] then None else Some "runs-after-closing-response")
@@ -152,10 +164,31 @@ let oracle (script : int list) (impl_line : string) : string =
             | [_], `Get -> (List.rev acc, true, if rest = [] then None else Some "runs-after-failed-body-fetch")
             | _ -> (List.rev acc, true, Some "log-shape")) in
        let (expected, _closed, shape_err) = expect gs [] in
+       let count_status (w : n list) : int =
+         let s = string_of_bytes w and pat = "HTTP/1.1 " in
+         let n = String.length s and m = String.length pat in
+         let rec go i acc = if i + m > n then acc else go (i + 1) (if String.sub s i m = pat then acc + 1 else acc) in
+         go 0 0 in
        (match shape_err with Some e -> "oracle=fail@" ^ e | None ->
         if String.length w > 0 && w.[0] <> 'x' then "oracle=ok"   (* digest only: compared by correspondence *)
         else begin
           let (resps, rest) = parse_all (bytes_of_tok w) [] in
+          let reset = List.mem "reset=1" toks in
+          let rec prefix_of a b = (match a, b with [], _ -> true | x :: a', y :: b' -> x = y && prefix_of a' b' | _ -> false) in
+          if reset && prefix_of (List.filter (fun (c, _) -> c / 100 <> 1) resps) expected && files = "0" then
+            (* the server closed with unread request bytes in its receive queue, the kernel answered RST and the
+               client lost the tail of what it was sent: what it did receive is a prefix of the answers *)
+            "oracle=ok"
+          else
+          if !faulty then begin
+            (* the last answer is a response whose body source fails after the head went out: the client sees the
+               earlier answers in full, then ONE partial response (its status line, never a second one), then EOF *)
+            let finals = List.filter (fun (c, _) -> c / 100 <> 1) resps in
+            if finals <> expected then "oracle=fail@responses-differ-from-handler-answers"
+            else if rest = [] then "oracle=fail@failed-response-looks-complete"
+            else if count_status rest <> 1 then "oracle=fail@second-status-line-after-a-partial-response"
+            else if files <> "0" then "oracle=fail@temp-file-left" else "oracle=ok"
+          end else
           if rest <> [] then "oracle=fail@transcript-not-well-formed"
           else begin
             let finals = List.filter (fun (c, _) -> c / 100 <> 1) resps in
